@@ -306,6 +306,20 @@ func longformReplay(args []string) {
 
 	createdDID := map[string]string{}
 
+	// -log <file>: trace mode (see the resolve case)
+	var traceEnc *json.Encoder
+
+	if lp := fl.str("log", ""); lp != "" {
+		lf, lerr := os.Create(lp)
+		if lerr != nil {
+			fatalf("%v", lerr)
+		}
+
+		defer lf.Close()
+
+		traceEnc = json.NewEncoder(lf)
+	}
+
 	// results handed out earlier stay what they were, whatever the handler / VDR serves afterwards
 	type heldResult struct {
 		what string
@@ -813,6 +827,14 @@ func longformReplay(args []string) {
 
 			r1, e1 := handler.ResolveDocument(did)
 			_, e2 := vdr.Read(did)
+
+			// trace mode: what happened is logged for LongFormTrace.tla, nothing is judged here
+			if traceEnc != nil {
+				_ = traceEnc.Encode(map[string]interface{}{"event": "Resolve", "probe": c.Probe, "resolved": e1 == nil, "read": e2 == nil,
+					"id_ok": e1 != nil || r1.Document.ID() == did})
+
+				return
+			}
 
 			col.sample(map[string]interface{}{"case": c, "did": did, "resolved": e1 == nil})
 
